@@ -141,6 +141,9 @@ inductive Conv
   | pane (info : PaneInfo) (cs : List Conv)
   | nested (v : Conv)
   | custom (id : String)
+  /-- `ValueOrListConverter` (pane/types.py): "one `T` or a list of `T`" — a union of `inner` and
+  `seq "list" inner` whose result is wrapped (`ValueOrList(v, i == 0)`) -/
+  | vol (inner : Conv)
   deriving Repr, Inhabited
 
 /-- Everything that leaves pane's own code: parameters, never definitions.  Theorems quantify over
